@@ -283,14 +283,27 @@ def judge_call(ctx, CH, state, st, held):
                               detail=label, finding=None)
                     # how the library organises its checking is not part of the property: observed, not judged
                     mon.config("while on: a _check_* function was invoked" if ctx.calls else "while on: no _check_* invocation seen")
+                elif st["api"] == "ub_to_u_b":
+                    # a left-handed U.B is neither an orientation matrix, nor Euler angles, nor a UBI: the statement names no
+                    # class of invalid input for this function (the tree as found raises because the U it *derives* is improper;
+                    # returning a proper U with a negative B33 instead is as good).  Observed, not judged.
+                    mon.config("ub_to_u_b with det < 0 while on: %s" % ("raised " + type(raised).__name__ if raised is not None else "returned"))
                 else:
                     ok = isinstance(raised, ValueError)
                     mon.config("rejection raised inside a _check_* function" if by_check else "rejection raised elsewhere")
                     mon.check("history:invalid input rejected while on", ok, observed=repr(raised), expected="ValueError",
                               detail=label)
             else:
-                mon.check("history:no check runs while off", len(ctx.calls) == 0, observed=list(ctx.calls), expected="no _check_* invocation",
+                # whether a _check_* function is *entered* while off is the library's business; none may reject
+                mon.check("history:no check runs while off", not by_check, observed=list(ctx.calls), expected="no input check raises",
                           detail=label)
+                mon.config("while off: a _check_* function was entered" if ctx.calls else "while off: no _check_* invocation seen")
+                if not st["valid"]:
+                    bad = isinstance(raised, ValueError) and not isinstance(raised, np.linalg.LinAlgError)
+                    if bad and st["api"] == "u_to_rod" and "trace" in str(raised).lower():
+                        bad = False          # 1 + trace = 0: u_to_rod has no finite answer there; not an input check (see C03)
+                    mon.check("history:invalid input not rejected while off", not bad, observed=repr(raised), expected="no ValueError",
+                              detail=label)
                 if st["valid"]:
                     mon.check("history:valid input accepted while off", raised is None, observed=repr(raised), detail=label)
                     if raised is None:
